@@ -20,6 +20,7 @@ import json, os, re, sys, shutil, time
 from fractions import Fraction
 import framework as F
 import floatbase
+import cov_evidence
 
 sys.path.insert(0, os.path.join(F.VERIF, "translate"))
 import conv2coq as T
@@ -28,7 +29,7 @@ import convfloat_proofs as TP
 PROP = "C02"
 META = dict(
     technique="Coq/Flocq proof over a model TRANSLATED from conv.rs on every run (one generated lemma per dispatched float conversion, closed by one tactic from generic Flocq lemmas; consequences proved from those) + coqc-evaluated model vs crate correspondence in debug and release + exact-integer specification oracle sweeps (all f32 bit patterns of the domain in the thorough tier)",
-    text="translate/conv2coq.py parses every conversions!/impl_from_sample! table of dasp_sample/src/conv.rs into shallow Gallina over Flocq's IEEE-754 binary32/binary64 (`int as f` = round-to-nearest-even binary_normalize, `/` `*` = Bdiv/Bmult, `f as int` = truncating saturating cast, `f32 as f64`/`f64 as f32` = renormalisation in the target format); Coq 8.16.1 proves, for every integer format x {f32,f64} and every in-range integer, that what Sample::to_sample dispatches to returns the finite float round_NE(amplitude)/2^(bits-1) = round_NE(amplitude/2^(bits-1)) (one rounding, exact scaling), within [-1,1], monotone, equilibrium -> +0.0, exact when bits <= mantissa width; for every finite float in [-1,1) that the float -> integer conversion returns trunc(f*2^(bits-1)) re-offset for unsigned targets, without panic in either build profile, in range, monotone, 0.0 -> equilibrium, -1.0 -> MIN, and inverts the integer -> float conversion wherever that is exact; f32 -> f64 is exact and f64 -> f32 is Flocq's round-to-nearest-even of the value into binary32 (overflow to the infinity of the same sign, NaN/inf/zero structurally). The translator and Base/Float.v are validated by running the generated model inside coqc against the real crate (public trait dispatch, both profiles, inside and outside the documented domain) and the crate against an independent exact-integer oracle.",
+    text="translate/conv2coq.py parses every conversions!/impl_from_sample! table of dasp_sample/src/conv.rs into shallow Gallina over Flocq's IEEE-754 binary32/binary64 (`int as f` = round-to-nearest-even binary_normalize, `/` `*` = Bdiv/Bmult, `f as int` = truncating saturating cast, `f32 as f64`/`f64 as f32` = renormalisation in the target format); Coq 8.16.1 proves, for every integer format x {f32,f64} and every in-range integer, that what Sample::to_sample dispatches to returns the finite float round_NE(amplitude)/2^(bits-1) = round_NE(amplitude/2^(bits-1)) (one rounding, exact scaling), within [-1,1], monotone, equilibrium -> +0.0, exact when bits <= mantissa width; for every finite float in [-1,1) that the float -> integer conversion returns trunc(f*2^(bits-1)) re-offset for unsigned targets, without panic in either build profile, in range, monotone, 0.0 -> equilibrium, -1.0 -> MIN, and inverts the integer -> float conversion wherever that is exact; f32 -> f64 is exact and f64 -> f32 is Flocq's round-to-nearest-even of the value into binary32 (overflow to the infinity of the same sign, NaN/inf/zero structurally). f32 -> f32 and f64 -> f64 (the blanket identity impl) return the value itself (c02_same_format). The translator and Base/Float.v are validated by running the generated model inside coqc against the real crate (every public entry point: the four trait methods, the same through a Duplex<_> bound only, and the module functions conv::<src>::to_<dst>, all required to agree; both profiles, inside and outside the documented domain) and the crate against an independent exact-integer oracle.",
     note="Trusted: Coq kernel; Flocq 4.1.0 as the meaning of IEEE-754 and Base/Float.v as the meaning of Rust's float operators and casts (validated against rustc by lib/floatbase.py and by this correspondence); translate/conv2coq.py (validated only by the correspondence); Sample/Rint.v for the integer twin functions; harness + generators. Axioms: the standard-library real-number axioms (ClassicalDedekindReals.sig_forall_dec, sig_not_dec, functional_extensionality_dep; Classical_Prop.classic through Flocq) -- the theorems speak about B2R values in R.",
     design="6/C02")
 FHEADER = "From Dasp Require Import Sample.ConvRun Sample.ConvFloatRun.\nRequire Import Uint63."
@@ -41,7 +42,7 @@ SIGNED = {f: f[0] in "iI" for f in FORMATS}
 REPBITS = {"i8": 8, "i16": 16, "I24": 32, "i32": 32, "I48": 64, "i64": 64, "u8": 8, "u16": 16, "U24": 32, "u32": 32, "U48": 64, "u64": 64}
 FW = {32: dict(prec=24, mw=23, ew=8, emax=128, bias=127, name="f32"), 64: dict(prec=53, mw=52, ew=11, emax=1024, bias=1023, name="f64")}
 TEST_CONV = os.environ.get("DASP_CONV_RS")  # TESTING ONLY: pretend /repo's conv.rs were this file
-N_THEOREMS = 28
+N_THEOREMS = 29
 
 
 def fmin(f):
@@ -277,6 +278,9 @@ def gen_items(rng, tier):
             elif d == "f2i":
                 line = f"f2i {fw} {CODE[f]} " + " ".join(map(str, part))
                 coq = f"FF2I {mode} {fw} {CODE[f]} [" + "; ".join(zt(v) for v in part) + "]"
+            elif d == "same":
+                line = f"f2f {fw} 1 " + " ".join(map(str, part))
+                coq = f"FFSame {mode} {fw} [" + "; ".join(zt(v) for v in part) + "]"
             else:
                 line = f"f2f {fw} 0 " + " ".join(map(str, part))
                 coq = f"FF2F {mode} {fw} [" + "; ".join(zt(v) for v in part) + "]"
@@ -310,6 +314,10 @@ def gen_items(rng, tier):
         vals = f2f_inputs(rng.fork(f"ff{fw}"), fw, 1500 if quick else 20000)
         for mode in (0, 1):
             add("f2f", "f2f", mode, None, fw, vals)
+        # the same float format (f32 -> f32, f64 -> f64): the blanket identity impl `impl<S> FromSample<S> for S`
+        same = f2f_inputs(rng.fork(f"same{fw}"), fw, 200 if quick else 4000)
+        for mode in (0, 1):
+            add("same-format", "same", mode, None, fw, same)
     return items
 
 
@@ -352,6 +360,8 @@ def fn_name(S, it_or_dir, f=None, fw=None):
     else:
         d = it_or_dir
     ft = FW[fw]["name"]
+    if d == "same":
+        return "conv.rs `impl<S> FromSample<S> for S` (the blanket identity impl)"
     if d == "f2f":
         pair = (ft, "f64" if fw == 32 else "f32")
     else:
@@ -368,6 +378,8 @@ def call_name(d, f, fw):
         return f"<{f} as Sample>::to_sample::<{ft}>()"
     if d == "f2i":
         return f"<{ft} as Sample>::to_sample::<{f}>()"
+    if d == "same":
+        return f"<{ft} as Sample>::to_sample::<{ft}>()"
     return f"<{ft} as Sample>::to_sample::<{'f64' if fw == 32 else 'f32'}>()"
 
 
@@ -376,7 +388,7 @@ def harness_line(d, f, fw, vals):
         return f"i2f {CODE[f]} {fw} " + " ".join(map(str, vals))
     if d == "f2i":
         return f"f2i {fw} {CODE[f]} " + " ".join(map(str, vals))
-    return f"f2f {fw} 0 " + " ".join(map(str, vals))
+    return f"f2f {fw} {1 if d == 'same' else 0} " + " ".join(map(str, vals))
 
 
 def coq_case(d, mode, f, fw, vals):
@@ -385,6 +397,8 @@ def coq_case(d, mode, f, fw, vals):
         return f"FI2F {mode} {CODE[f]} {fw} {vs}"
     if d == "f2i":
         return f"FF2I {mode} {fw} {CODE[f]} {vs}"
+    if d == "same":
+        return f"FFSame {mode} {fw} {vs}"
     return f"FF2F {mode} {fw} {vs}"
 
 
@@ -394,6 +408,8 @@ def expectation(d, f, fw, v):
         return spec_i2f(f, fw, v) if fmin(f) <= v <= fmax(f) else None
     if d == "f2i":
         return spec_f2i(f, fw, v)[0]
+    if d == "same":
+        return v if decode(fw, v) is not None else (0x7FC00000 if fw == 32 else 0x7FF8000000000000)
     x = fvalue(fw, v)
     if x is None:
         return None
@@ -481,6 +497,10 @@ def oracle_lines(rng, tier, mode, for_search=False):
     for fw in (32, 64):
         for b in structured_for(("f2f", None, fw), rs):
             out.append((f"of2f {fw} 0 {b} 1 1", ("f2f", None, fw), 1))
+        for b in structured_for(("same", None, fw), rs):
+            out.append((f"of2f {fw} 1 {b} 1 1", ("same", None, fw), 1))
+        n = (400000 if rel else 100000) if quick else 1 << 22
+        out.append((f"rf2f {fw} 1 {rng.range(1, 1 << 62)} {n}", ("same", None, fw), n))
     for fw in (32, 64):
         key = ("f2f", None, fw)
         if fw == 32:
@@ -531,8 +551,8 @@ def structured_for(key, rng):
 def minimise_failure(binpath, fl, rng):
     """a readable witness: the first failing input among the structured values of that conversion, if any"""
     d, f, fw = fl["key"]
-    op = {"i2f": "oi2f", "f2i": "of2i", "f2f": "of2f"}[d]
-    a, b = (CODE[f], fw) if d == "i2f" else (fw, CODE[f]) if d == "f2i" else (fw, 0)
+    op = {"i2f": "oi2f", "f2i": "of2i", "f2f": "of2f", "same": "of2f"}[d]
+    a, b = (CODE[f], fw) if d == "i2f" else (fw, CODE[f]) if d == "f2i" else (fw, 1 if d == "same" else 0)
     cands = structured_for(fl["key"], rng)[:600]
     lines = [f"{op} {a} {b} {v} 1 1" for v in cands]
     rc, outl, _ = F.run_bin_parallel(binpath, lines)
@@ -546,10 +566,11 @@ def minimise_failure(binpath, fl, rng):
 def describe_fail(S, fl, mode, why=None):
     d, f, fw = fl["key"]
     got = {0: fl["got"], 6: f"{fl['got']} (outside [-1,1] / outside the target's range / round trip broken)",
-           7: f"to_sample/from_sample disagree: {fl['got']} vs {fl['expected']}", 8: f"panic kind {fl['got']}"}.get(fl["tag"], fl["got"])
+           7: f"entry points disagree (Sample::to_sample vs Sample::from_sample / the module function conv::<src>::to_<dst>; replay the harness_line for all seven): {fl['got']} vs {fl['expected']}", 8: f"panic kind {fl['got']}"}.get(fl["tag"], fl["got"])
     what = {"i2f": "integer -> float conversion is not round_NE(amplitude)/2^(bits-1)",
             "f2i": "float -> integer conversion is not trunc(f*2^(bits-1)) (re-offset for unsigned)",
-            "f2f": "f32 <-> f64 conversion is not the exact / correctly rounded value"}[d]
+            "f2f": "f32 <-> f64 conversion is not the exact / correctly rounded value",
+            "same": "conversion of a float sample to its own format (the blanket identity impl) does not return the sample"}[d]
     p = dict(kind=what, function=fn_name(S, d, f, fw), call=call_name(d, f, fw), profile="debug" if mode == 0 else "release",
              input=fl["input"], input_is="integer value" if d == "i2f" else "IEEE bit pattern", got=got, expected=fl["expected"],
              failing_inputs_in_that_sweep=fl["nfail"], harness_line=harness_line(d, f, fw, [fl["input"]]),
@@ -574,6 +595,7 @@ def scratch_harness():
     F.ensure_dir(os.path.join(h, "src", "bin"))
     shutil.copy(os.path.join(F.HARNESS, "src", "lib.rs"), os.path.join(h, "src", "lib.rs"))
     shutil.copy(os.path.join(F.HARNESS, "src", "bin", "c02.rs"), os.path.join(h, "src", "bin", "c02.rs"))
+    shutil.copy(os.path.join(F.HARNESS, "src", "direct.rs"), os.path.join(h, "src", "direct.rs"))
     F.write_if_changed(os.path.join(h, "Cargo.toml"),
                        '[package]\nname = "dasp_verif_harness"\nversion = "0.0.0"\nedition = "2018"\npublish = false\n\n[workspace]\n\n'
                        f'[dependencies]\ndasp_sample = {{ path = "{ds}" }}\n\n'
@@ -888,8 +910,10 @@ def finish(rep, info, tier, stats, times):
         "evaluations": stats.get("values", 0) + stats.get("oracle", 0),
         "model_vs_crate_evaluations": stats.get("values", 0), "crate_vs_exact_integer_oracle_evaluations": stats.get("oracle", 0),
         "distinct_nontrivial": stats.get("nontrivial", 0), "oracle_nontrivial_evaluations": stats.get("oracle_nontrivial", 0),
-        "rule": "model-vs-crate (coqc vs Sample::to_sample/from_sample, debug and release): integer -> f32/f64: every value of 8-bit formats (thorough: 16-bit), boundary values (MIN.., +-2^k+-1 on the amplitude, MAX), rounding-structured amplitudes (exact ties, tie+-1, carries for both mantissa widths) and random values of wider formats; f32/f64 -> integer: structured patterns of [-1,1) (+-0, subnormals, +-2^-k, 1-ulp, -1, neighbours of j*2^-(bits-1)) + random patterns of the domain + a separate outside-domain stream (>= 1, < -1, NaN, inf); f32 <-> f64 structured + random. crate-vs-oracle: exhaustive <= 16-bit integers (24-bit in release), random + strided sweeps otherwise; thorough release: every f32 bit pattern of [-1,1) for all 12 targets, every 32-bit integer, every f32 -> f64. non-trivial = distinct (conversion, input) in the model-vs-crate set whose exact result needs rounding/truncation (integer wider than the mantissa; f*2^(bits-1) not an integer; f64 value not representable in f32) or that involves an unsigned format",
-        "samples": stats.get("samples", []), "input_distribution": stats.get("hist", {}), "disagreements": stats.get("bad", 0),
+        "rule": "entry points: every model-vs-crate value goes through Sample::to_sample, Sample::from_sample, ToSample::to_sample_, FromSample::from_sample_, both of those again with only a `Duplex<_>` bound in scope, and the module function conv::<src>::to_<dst> (harness/src/direct.rs); `0 r` only if all seven agree (the oracle sweeps use to_sample, from_sample and the module function). model-vs-crate (coqc vs crate, debug and release): f32 -> f32 and f64 -> f64 (the blanket identity impl; model Ok x, c02_same_format) on the f32<->f64 input set; integer -> f32/f64: every value of 8-bit formats (thorough: 16-bit), boundary values (MIN.., +-2^k+-1 on the amplitude, MAX), rounding-structured amplitudes (exact ties, tie+-1, carries for both mantissa widths) and random values of wider formats; f32/f64 -> integer: structured patterns of [-1,1) (+-0, subnormals, +-2^-k, 1-ulp, -1, neighbours of j*2^-(bits-1)) + random patterns of the domain + a separate outside-domain stream (>= 1, < -1, NaN, inf); f32 <-> f64 structured + random. crate-vs-oracle: exhaustive <= 16-bit integers (24-bit in release), random + strided sweeps otherwise; thorough release: every f32 bit pattern of [-1,1) for all 12 targets, every 32-bit integer, every f32 -> f64. non-trivial = distinct (conversion, input) in the model-vs-crate set whose exact result needs rounding/truncation (integer wider than the mantissa; f*2^(bits-1) not an integer; f64 value not representable in f32) or that involves an unsigned format",
+        "samples": stats.get("samples", []),
+        "input_distribution": dict(stats.get("hist", {}), source_regions_never_entered=cov_evidence.regions(PROP, "The float conversion bodies contain no branch (no `if`); the integer twins the unsigned paths call are C01's, whose evidence counts their arms.")),
+        "disagreements": stats.get("bad", 0),
         "floatbase": stats.get("floatbase", {}),
         "timing": dict(times, coq_s=info.get("coq_s")),
         "explanation": "theorems: what Sample::to_sample dispatches to (translated from conv.rs on this run) is the correctly rounded amplitude/2^(bits-1) (int -> float) and trunc(f*2^(bits-1)) re-offset (float -> int, on [-1,1)), in both profiles, with the stated consequences; tie: generated model run by coqc against the crate through the public trait dispatch in both profiles, inside and outside the documented domain, plus the crate against an independent exact-integer oracle",
